@@ -69,6 +69,11 @@ def run(ctx):
     chars = ["'a'", "'u'", "'L'", "'U'", "'f'", "'8'", "'l'", "L'a'", "u'a'", "U'a'", "L'L'", "u'u'", "U'U'", "u'8'", "'\\n'", "'\\''", "L'\\\\'", "'ab'"]
     for c in consts + floats + chars:
         add("type " + hexs("void f(){ %s; }" % c), "const " + hexs(c), ("const", c))
+    # the same integer constants on CONFIGURED platforms (Compilation::create with PlatformOptions whose maxima are set): a 32-bit long
+    # (ILP32 / LLP64) and a 16-bit int - "the first type of the list that can represent its value on the configured platform"
+    for plat in ("ilp32", "ip16", "lp64"):
+        for c in consts if not ctx.quick else consts[::2]:
+            add("ptype %s %s" % (plat, hexs("void f(){ %s; }" % c)), "pconst %s %s" % (plat, hexs(c)), ("const", c + " on " + plat))
 
     text = "\n".join(impl_lines) + "\n"
     rc, out, err = sh([build.psyh("ndebug"), "arith"], input=text, timeout=3000)
@@ -112,7 +117,7 @@ def run(ctx):
         "samples": [impl_lines[400][:80], model_lines[2000], model_lines[-30], desc[-1][1]],
     })
     ctx.notes.update({"property_violations": nviol, "correspondence_disagreements": ncorr, "constants": len(consts)})
-    ctx.assumptions += ["platform = LP64 (the host's PlatformOptions()); performArithmeticConversions has no platform parameter in the code",
+    ctx.assumptions += ["promotions and conversions: platform = LP64 (the host's PlatformOptions()), performArithmeticConversions has no platform parameter in the code; integer constants: also on configured platforms (32-bit long, 16-bit int)",
                         "wchar_t/char16_t/char32_t typedefs are absent, so L/u/U constants get the built-in fallbacks int/unsigned short/unsigned int",
                         "bitwise &,^,| and logical &&,|| record no type in the front end and are not in the property's operator list",
                         "hexadecimal floating constants: ten bodies x five suffixes"]
